@@ -34,12 +34,14 @@ Definition kids (o : obj) : list (string * obj) :=
 Record fit := mkFit {
   fid : string;
   finst : obj;
-  fstrs : list (string * option string);     (* name, unique_tag, path_prefix (NULL = None) *)
-  fnums : list (string * Z);                 (* max_log_likelihood *)
-  fbools : list (string * bool);             (* is_complete, is_grid_search *)
+  fstrs : list (string * option string);     (* name, unique_tag, path_prefix, parent_id, id (NULL = None) *)
+  fnums : list (string * Z);                 (* max_log_likelihood (NULL = no entry) *)
+  fbools : list (string * bool);             (* is_complete, is_grid_search (NULL = no entry) *)
   finfo : list (string * string);            (* rows of `info` *)
-  fchild : bool                              (* parent_id IS NOT NULL *)
+  fparent : option string                    (* parent_id (NULL = None) *)
 }.
+(* parent_id IS NOT NULL *)
+Definition fchild (f : fit) : bool := match fparent f with Some _ => true | None => false end.
 
 Fixpoint lookup {A} (n : string) (l : list (string * A)) : option A :=
   match l with
@@ -289,7 +291,7 @@ Fixpoint tables_ok (q : qobj) : bool :=
 (* junction construction: AbstractJunction.__new__ / _match_conditions *)
 (* ------------------------------------------------------------------ *)
 
-Inductive err := EAssertion | ETypeError | EFuel | EShadow | ESql.
+Inductive err := EAssertion | ETypeError | EFuel | EShadow | ESql | EAttr.
 Inductive result (A : Type) := Ok (a : A) | Err (e : err).
 Arguments Ok {A} a.
 Arguments Err {A} e.
@@ -504,24 +506,35 @@ Fixpoint eval (p : pred) (f : fit) : bool :=
 
 Inductive okey := OStrKey (attr : string) | ONumKey (attr : string) | OBoolKey (attr : string) | OIdKey.
 
+(* SQLite: NULL is smaller than every value (first under ASC, last under DESC); NULLs tie with each other *)
+Definition opt_cmp {A} (cmp : A -> A -> comparison) (x y : option A) : comparison :=
+  match x, y with
+  | None, None => Eq
+  | None, Some _ => Lt
+  | Some _, None => Gt
+  | Some a, Some b => cmp a b
+  end.
+Definition b2z (b : bool) : Z := if b then 1%Z else 0%Z.
+(* the value of an order key on a fit: None = NULL column *)
+Definition kstr (attr : string) (f : fit) : option string :=
+  match lookup attr (fstrs f) with Some (Some x) => Some x | _ => None end.
+Definition knum (attr : string) (f : fit) : option Z := lookup attr (fnums f).
+Definition kbool (attr : string) (f : fit) : option Z := option_map b2z (lookup attr (fbools f)).
+
 Definition key_cmp (k : okey) (a b : fit) : comparison :=
   match k with
-  | OStrKey attr =>
-      match lookup attr (fstrs a), lookup attr (fstrs b) with
-      | Some (Some x), Some (Some y) => String.compare x y
-      | _, _ => Eq
-      end
-  | ONumKey attr =>
-      match lookup attr (fnums a), lookup attr (fnums b) with
-      | Some x, Some y => Z.compare x y
-      | _, _ => Eq
-      end
-  | OBoolKey attr =>
-      match lookup attr (fbools a), lookup attr (fbools b) with
-      | Some x, Some y => Z.compare (if x then 1 else 0)%Z (if y then 1 else 0)%Z
-      | _, _ => Eq
-      end
+  | OStrKey attr => opt_cmp String.compare (kstr attr a) (kstr attr b)
+  | ONumKey attr => opt_cmp Z.compare (knum attr a) (knum attr b)
+  | OBoolKey attr => opt_cmp Z.compare (kbool attr a) (kbool attr b)
   | OIdKey => String.compare (fid a) (fid b)
+  end.
+(* the key of fit a is NULL *)
+Definition key_null (k : okey) (a : fit) : bool :=
+  match k with
+  | OStrKey attr => match kstr attr a with None => true | _ => false end
+  | ONumKey attr => match knum attr a with None => true | _ => false end
+  | OBoolKey attr => match kbool attr a with None => true | _ => false end
+  | OIdKey => false
   end.
 
 (* ORDER BY k1 [DESC], k2 [DESC], ... : the first key takes precedence *)
@@ -812,6 +825,199 @@ Definition spec_ops (top_only : bool) (db : list fit) (ops : list op) : list fit
   fst (fold_left spec_op ops (if top_only then filter is_top db else db, [])).
 
 (* ------------------------------------------------------------------ *)
+(* grid searches: Aggregator.grid_searches, GridSearchAggregator.children / best_fits, *)
+(* ChildQuery / BestFitQuery (autofit/database/query/query/attribute.py)                *)
+(* ------------------------------------------------------------------ *)
+
+Definition fmll (f : fit) : option Z := lookup "max_log_likelihood" (fnums f).
+Definition id_in (i : string) (l : list fit) : bool := existsb (fun f => String.eqb (fid f) i) l.
+(* "parent_id in (SELECT id ...)": NULL parent_id is never in the set *)
+Definition child_of (P : list fit) (f : fit) : bool :=
+  match fparent f with Some p => id_in p P | None => false end.
+Definition children_of (P db : list fit) : list fit := filter (child_of P) db.
+Definition same_parent (a b : fit) : bool := opt_str_eqb (fparent a) (fparent b).
+(* BestFitQuery: best = SELECT parent_id, max(max_log_likelihood) FROM children GROUP BY parent_id (max ignores
+   NULL, is NULL when every value is NULL); a child is returned when its likelihood EQUALS the maximum of its
+   group: never when its likelihood is NULL, every child attaining the maximum when there are ties *)
+Definition is_best (C : list fit) (c : fit) : bool :=
+  match fmll c with
+  | None => false
+  | Some m => forallb (fun c' => negb (same_parent c c') || match fmll c' with Some m' => Z.leb m' m | None => true end) C
+  end.
+Definition best_of (C : list fit) : list fit := filter (is_best C) C.
+
+(* the predicate of an aggregator once grid-search operations are used *)
+Inductive gpred :=
+| GP (q : option qobj)              (* NullPredicate / an ordinary query object *)
+| GPChild (g : gpred)               (* ChildQuery(g):   SELECT id FROM fit WHERE parent_id in (g.fit_query) *)
+| GPBest (g : gpred)                (* BestFitQuery(g): WITH children AS (...), best AS (...) SELECT id ...; *)
+| GPAnd (g : gpred) (q : qobj)      (* And(g, q...) with g a Child / BestFit / Ids query: id IN (g.fit_query) AND id IN (q.fit_query) *)
+| GPIds (ids : list string).        (* IdsQuery(ids) of the proposed repair of slicing: SELECT id FROM fit WHERE id IN ('a', 'b') *)
+
+Fixpoint gsel (g : gpred) (db : list fit) : list fit :=
+  match g with
+  | GP None => db
+  | GP (Some q) => select q db
+  | GPChild g' => children_of (gsel g' db) db
+  | GPBest g' => best_of (children_of (gsel g' db) db)
+  | GPAnd g' q => filter (fun f => id_in (fid f) (gsel g' db) && sem q f) db
+  | GPIds ids => filter (fun f => mem_str (fid f) ids) db
+  end.
+
+(* BestFitQuery.fit_query ends with ';': it can only be executed as the whole statement; nested in
+   "id IN (...)" / "parent_id in (...)" / another WITH it is a syntax error (sqlite3.OperationalError).
+   bfix = the proposed repair (no ';') applied *)
+Fixpoint has_best (g : gpred) : bool :=
+  match g with
+  | GP _ => false
+  | GPChild g' => has_best g'
+  | GPBest _ => true
+  | GPAnd g' _ => has_best g'
+  | GPIds _ => false
+  end.
+Definition gsql_ok (bfix : bool) (g : gpred) : bool :=
+  bfix || match g with GPBest g' => negb (has_best g') | _ => negb (has_best g) end.
+
+(* self._predicate & cq: NullPredicate.__and__ returns cq; otherwise And(self._predicate, cq), whose
+   _match_conditions flattens both sides and re-merges the NamedQuerys by name; a Child / BestFit query is
+   an AttributeQuery (never merged, never flattened) *)
+Definition gand (vr : variant) (g : gpred) (cq : qobj) : result gpred :=
+  match g with
+  | GP None => Ok (GP (Some cq))
+  | GP (Some q0) => bind (junction vr JAnd [q0; cq]) (fun q => Ok (GP (Some q)))
+  | GPAnd g' q0 => bind (junction vr JAnd [q0; cq]) (fun q => Ok (GPAnd g' q))
+  | _ => bind (junction vr JAnd [cq]) (fun q => Ok (GPAnd g q))
+  end.
+
+Inductive gop :=
+| GQuery (p : pred)                            (* .query(p) / (p) *)
+| GOrder (k : okey) (rev : bool)               (* .order_by(attr, reverse) *)
+| GSlice (start stop step : option Z)          (* [start:stop:step] *)
+| GGrid                                        (* .grid_searches() *)
+| GChildren                                    (* .children()   (GridSearchAggregator only) *)
+| GBestFits.                                   (* .best_fits()  (GridSearchAggregator only) *)
+
+Record gstate := mkG { g_pred : gpred; g_bad : bool; g_keys : list (okey * bool); g_off : Z; g_lim : option Z;
+                       g_top : bool; g_grid : bool }.
+Definition g_init (top_only : bool) := mkG (GP None) false [] 0%Z None top_only false.
+Definition g_fits (vr : variant) (db : list fit) (st : gstate) : list fit :=
+  window vr (g_top st) (g_off st) (g_lim st) (ordered (g_keys st) (gsel (g_pred st) db)).
+Definition is_grid_q : qobj := QAttr 0 (ABool "is_grid_search").
+
+Definition gop_step (vr : variant) (bfix : bool) (db : list fit) (st : gstate) (o : gop) : result gstate :=
+  match o with
+  | GQuery p =>
+      bind (compile vr p) (fun cq =>
+      bind (gand vr (g_pred st) cq) (fun g' =>
+      Ok (mkG g' (g_bad st || quote_bad vr p) (g_keys st) 0%Z None (g_top st) (g_grid st))))
+  | GOrder k rev => Ok (mkG (g_pred st) (g_bad st) (g_keys st ++ [(k, rev)]) 0%Z None (g_top st) (g_grid st))
+  | GSlice start stop _ =>
+      if g_bad st || negb (gsql_ok bfix (g_pred st)) then Err ESql
+      else let n := Z.of_nat (List.length (g_fits vr db st)) in
+           let ol := slice_step vr n (g_off st) (g_lim st) start stop in
+           Ok (mkG (g_pred st) (g_bad st) (g_keys st) (fst ol) (snd ol) (g_top st) (g_grid st))
+  (* predicate & search.is_grid_search, order_bys=[id], top_level_only=False, type GridSearchAggregator *)
+  | GGrid =>
+      bind (gand vr (g_pred st) is_grid_q) (fun g' =>
+      Ok (mkG g' (g_bad st) [(OIdKey, false)] 0%Z None false true))
+  | GChildren =>
+      if g_grid st
+      then Ok (mkG (GPChild (g_pred st)) (g_bad st) [(OStrKey "parent_id", false)] 0%Z None (g_top st) true)
+      else Err EAttr
+  | GBestFits =>
+      if g_grid st
+      then Ok (mkG (GPBest (g_pred st)) (g_bad st) [(OStrKey "parent_id", false)] 0%Z None (g_top st) true)
+      else Err EAttr
+  end.
+Fixpoint fold_gops (vr : variant) (bfix : bool) (db : list fit) (st : gstate) (ops : list gop) : result gstate :=
+  match ops with
+  | [] => Ok st
+  | o :: r => bind (gop_step vr bfix db st o) (fun st' => fold_gops vr bfix db st' r)
+  end.
+Definition gop_preds (ops : list gop) : list pred :=
+  flat_map (fun o => match o with GQuery p => [p] | _ => [] end) ops.
+(* the harness builds each predicate when its operation is applied *)
+Definition run_gops (vr : variant) (bfix : bool) (top_only : bool) (db : list fit) (ops : list gop)
+  : result (list fit * list (okey * bool)) :=
+  if existsb has_shadow (gop_preds ops) then Err EShadow else
+  bind (fold_gops vr bfix db (g_init top_only) ops) (fun st =>
+  if g_bad st || negb (gsql_ok bfix (g_pred st)) then Err ESql else Ok (g_fits vr db st, g_keys st)).
+
+(* ----- the proposed repair of slicing (proposed_fixes/C10-slice-positional.diff): an aggregator that carries a
+   slice stands for exactly its fits (IdsQuery) when it is queried / ordered / navigated further; a stepped slice
+   keeps the fits of the list slice, walking the ordering backwards for a negative step ----- *)
+Definition has_slice (st : gstate) : bool :=
+  negb (Z.eqb (g_off st) 0 && match g_lim st with None => true | Some _ => false end).
+Definition freeze (vr : variant) (db : list fit) (st : gstate) : gstate :=
+  if has_slice st
+  then mkG (GPIds (map fid (g_fits vr db st))) (g_bad st) (g_keys st) 0%Z None (g_top st) (g_grid st)
+  else st.
+Definition flip_keys (keys : list (okey * bool)) : list (okey * bool) := map (fun kr => (fst kr, negb (snd kr))) keys.
+Definition gop_step_s (vr : variant) (bfix : bool) (db : list fit) (st : gstate) (o : gop) : result gstate :=
+  match o with
+  | GSlice start stop (Some stp) =>
+      if Z.eqb stp 1 then gop_step vr bfix db st o
+      else if g_bad st || negb (gsql_ok bfix (g_pred st)) then Err ESql
+      else let sel := py_slice_step (g_fits vr db st) start stop (Some stp) in
+           Ok (mkG (GPIds (map fid sel)) (g_bad st) (if (stp <? 0)%Z then flip_keys (g_keys st) else g_keys st)
+                   0%Z None (g_top st) (g_grid st))
+  | GSlice _ _ None => gop_step vr bfix db st o
+  | _ => gop_step vr bfix db (freeze vr db st) o
+  end.
+Fixpoint fold_gops_s (vr : variant) (bfix : bool) (db : list fit) (st : gstate) (ops : list gop) : result gstate :=
+  match ops with
+  | [] => Ok st
+  | o :: r => bind (gop_step_s vr bfix db st o) (fun st' => fold_gops_s vr bfix db st' r)
+  end.
+Definition run_gops_s (vr : variant) (bfix : bool) (top_only : bool) (db : list fit) (ops : list gop)
+  : result (list fit * list (okey * bool)) :=
+  if existsb has_shadow (gop_preds ops) then Err EShadow else
+  bind (fold_gops_s vr bfix db (g_init top_only) ops) (fun st =>
+  if g_bad st || negb (gsql_ok bfix (g_pred st)) then Err ESql else Ok (g_fits vr db st, g_keys st)).
+
+(* the same sequence on Python lists of fits: query = filter; grid_searches = the grid searches among the
+   selected fits (child fits included), ordered by id; children = the fits whose parent is in the list, ordered by
+   parent_id; best_fits = per parent the children of maximal likelihood *)
+Definition is_grid (f : fit) : bool := acond_holds f (ABool "is_grid_search").
+Fixpoint spec_sel (db cur : list fit) (ops : list gop) : list fit :=
+  match ops with
+  | [] => cur
+  | GQuery p :: r => spec_sel db (filter (eval p) cur) r
+  | GGrid :: r => spec_sel db (filter is_grid cur) r
+  | GChildren :: r => spec_sel db (children_of cur db) r
+  | GBestFits :: r => spec_sel db (best_of (children_of cur db)) r
+  | _ :: r => spec_sel db cur r
+  end.
+Fixpoint spec_keys (keys : list (okey * bool)) (ops : list gop) : list (okey * bool) :=
+  match ops with
+  | [] => keys
+  | GOrder k rev :: r => spec_keys (keys ++ [(k, rev)]) r
+  | GGrid :: r => spec_keys [(OIdKey, false)] r
+  | (GChildren | GBestFits) :: r => spec_keys [(OStrKey "parent_id", false)] r
+  | _ :: r => spec_keys keys r
+  end.
+Fixpoint spec_top (top : bool) (ops : list gop) : bool :=
+  match ops with
+  | [] => top
+  | GGrid :: r => spec_top false r
+  | _ :: r => spec_top top r
+  end.
+
+(* the order keys decide every position: the id is among them *)
+Definition keys_total (keys : list (okey * bool)) : bool :=
+  existsb (fun kr => match fst kr with OIdKey => true | _ => false end) keys.
+Fixpoint sortedb (le : fit -> fit -> bool) (l : list fit) : bool :=
+  match l with
+  | a :: ((b :: _) as r) => le a b && sortedb le r
+  | _ => true
+  end.
+Definition fits_of_ids (db : list fit) (ids : list string) : list fit :=
+  flat_map (fun i => match find (fun f => String.eqb (fid f) i) db with Some f => [f] | None => [] end) ids.
+(* the harness prints parent_id and id both as string columns and as fparent / fid *)
+Definition fit_coherent (f : fit) : bool :=
+  opt_str_eqb (kstr "parent_id" f) (fparent f) && opt_str_eqb (kstr "id" f) (Some (fid f)).
+
+(* ------------------------------------------------------------------ *)
 (* correspondence cases                                                *)
 (* ------------------------------------------------------------------ *)
 
@@ -832,7 +1038,7 @@ Definition sort_str (l : list string) : list string := fold_right insert_str [] 
 
 Definition err_eqb (a b : err) : bool :=
   match a, b with
-  | EAssertion, EAssertion | ETypeError, ETypeError | EFuel, EFuel | EShadow, EShadow | ESql, ESql => true
+  | EAssertion, EAssertion | ETypeError, ETypeError | EFuel, EFuel | EShadow, EShadow | ESql, ESql | EAttr, EAttr => true
   | _, _ => false
   end.
 
@@ -844,7 +1050,11 @@ Inductive case :=
          (slices : list (option Z * option Z)) (observed : outcome)
 (* any sequence of query / order_by / slice; observed: fits, len(), aggregator[i].id *)
 | COps (db : list fit) (top_only : bool) (ops : list op) (observed : outcome)
-       (olen : Z) (oidx : option (Z * string)).
+       (olen : Z) (oidx : option (Z * string))
+(* any sequence of query / order_by / slice / grid_searches / children / best_fits; when the keys do not decide
+   every position the observed list is compared as a set and must be sorted by the keys *)
+| CGrid (db : list fit) (top_only : bool) (ops : list gop) (observed : outcome)
+        (olen : Z) (oidx : option (Z * string)).
 
 Definition nth_id (l : list fit) (i : Z) : option string :=
   let n := Z.of_nat (List.length l) in
@@ -853,8 +1063,43 @@ Definition nth_id (l : list fit) (i : Z) : option string :=
 Definition opt_str_eq (a : option string) (b : string) : bool :=
   match a with Some x => String.eqb x b | None => false end.
 
-Definition check_case_with (vr : variant) (c : case) : bool :=
+Definition grid_outcome_ok (db : list fit) (r : result (list fit * list (okey * bool))) (obs : outcome)
+                           (olen : Z) (oidx : option (Z * string)) : bool :=
+  forallb fit_coherent db &&
+  match r, obs with
+  | Ok (l, keys), RIds ids =>
+      (if keys_total keys
+       then str_list_eqb (map fid l) ids
+       else str_list_eqb (sort_str (map fid l)) (sort_str ids)
+            && sortedb (lex_le keys) (fits_of_ids db ids))
+      && Z.eqb (Z.of_nat (List.length l)) olen
+      && match oidx with
+         | Some (i, x) => if keys_total keys then opt_str_eq (nth_id l i) x else true
+         | None => true
+         end
+  | Err e, RExc e' => err_eqb e e'
+  | _, _ => false
+  end.
+Definition ops_outcome_ok (r : result (list fit * list (okey * bool))) (obs : outcome)
+                          (olen : Z) (oidx : option (Z * string)) : bool :=
+  match r, obs with
+  | Ok (l, keys), RIds ids =>
+      (match keys with
+       | [] => str_list_eqb (sort_str (map fid l)) (sort_str ids)
+       | _ => str_list_eqb (map fid l) ids
+       end)
+      && Z.eqb (Z.of_nat (List.length l)) olen
+      && match oidx, keys with
+         | Some (i, x), _ :: _ => opt_str_eq (nth_id l i) x
+         | _, _ => true
+         end
+  | Err e, RExc e' => err_eqb e e'
+  | _, _ => false
+  end.
+
+Definition check_case_with (vr : variant) (bfix : bool) (c : case) : bool :=
   match c with
+  | CGrid db top_only ops obs olen oidx => grid_outcome_ok db (run_gops vr bfix top_only db ops) obs olen oidx
   | CQuery db p top_only obs =>
       match model_query vr db p, obs with
       | Ok l, RIds ids => str_list_eqb (sort_str (map fid (if top_only then filter is_top l else l))) (sort_str ids)
@@ -867,27 +1112,22 @@ Definition check_case_with (vr : variant) (c : case) : bool :=
       | Err e, RExc e' => err_eqb e e'
       | _, _ => false
       end
-  | COps db top_only ops obs olen oidx =>
-      match run_ops vr top_only db ops, obs with
-      | Ok (l, keys), RIds ids =>
-          (match keys with
-           | [] => str_list_eqb (sort_str (map fid l)) (sort_str ids)
-           | _ => str_list_eqb (map fid l) ids
-           end)
-          && Z.eqb (Z.of_nat (List.length l)) olen
-          && match oidx, keys with
-             | Some (i, x), _ :: _ => opt_str_eq (nth_id l i) x
-             | _, _ => true
-             end
-      | Err e, RExc e' => err_eqb e e'
-      | _, _ => false
-      end
+  | COps db top_only ops obs olen oidx => ops_outcome_ok (run_ops vr top_only db ops) obs olen oidx
   end.
-Definition check_case := check_case_with current.
+Definition check_case := check_case_with current false.
+(* the proposed repair of slicing applied on a scratch copy *)
+Definition gop_of_op (o : op) : gop :=
+  match o with OQuery p => GQuery p | OOrder k rev => GOrder k rev | OSlice a b c => GSlice a b c end.
+Definition check_case_s (vr : variant) (bfix : bool) (c : case) : bool :=
+  match c with
+  | CGrid db top_only ops obs olen oidx => grid_outcome_ok db (run_gops_s vr bfix top_only db ops) obs olen oidx
+  | COps db top_only ops obs olen oidx => ops_outcome_ok (run_gops_s vr bfix top_only db (map gop_of_op ops)) obs olen oidx
+  | _ => check_case_with vr bfix c
+  end.
 
 (* label functions evaluated by the harness on the abstract case (never on the outcome) *)
 Definition case_db (c : case) : list fit :=
-  match c with CQuery db _ _ _ => db | COrder db _ _ _ _ _ => db | COps db _ _ _ _ _ => db end.
+  match c with CQuery db _ _ _ => db | COrder db _ _ _ _ _ => db | COps db _ _ _ _ _ => db | CGrid db _ _ _ _ _ => db end.
 (* the predicate of the case: for an op sequence the left-nested conjunction of its queries *)
 Definition conj_preds (l : list pred) : option pred :=
   match l with [] => None | p :: r => Some (fold_left PAnd r p) end.
@@ -896,6 +1136,7 @@ Definition case_pred (c : case) : option pred :=
   | CQuery _ p _ _ => Some p
   | COrder _ p _ _ _ _ => Some p
   | COps _ _ ops _ _ _ => conj_preds (op_preds ops)
+  | CGrid _ _ ops _ _ _ => conj_preds (gop_preds ops)
   end.
 Definition on_pred (c : case) (f : pred -> bool) : bool := match case_pred c with Some p => f p | None => false end.
 
@@ -944,8 +1185,8 @@ Fixpoint attr_tests (p : pred) : list acond :=
   end.
 
 Definition bit (b : bool) (w : N) : N := if b then w else 0%N.
-Definition case_labels_with (vr : variant) (c : case) : N :=
-  (bit (check_case_with vr c) 1
+Definition case_labels_gen (agree : bool) (vr : variant) (c : case) : N :=
+  (bit agree 1
    + bit (on_pred c (fun p => negb (safe_with vr true false false false p))) 2    (* inverted NamedQuery in a name merge *)
    + bit (on_pred c (fun p => negb (safe_with vr false true false false p))) 4    (* Or-merge over different tables *)
    + bit (on_pred c (has_not_junction vr)) 8                                      (* ~ of a junction *)
@@ -957,7 +1198,13 @@ Definition case_labels_with (vr : variant) (c : case) : N :=
    + bit (on_pred c (fun p => existsb (fun a => existsb (fun f => negb (acond_plain f a)) (case_db c)) (attr_tests p))) 512  (* LIKE <> substring *)
    + bit (on_pred c (quote_bad vr)) 1024                                          (* unescaped quote *)
    + bit (on_pred c has_shadow) 2048)%N.                                          (* shadowed path segment *)
+Definition case_labels_with' (vr : variant) (bfix : bool) (c : case) : N := case_labels_gen (check_case_with vr bfix c) vr c.
+Definition case_labels_with (vr : variant) := case_labels_with' vr false.
+Definition case_labels_slicefix (c : case) : N := case_labels_gen (check_case_s current false c) current c.
+Definition case_labels_bothfix (c : case) : N := case_labels_gen (check_case_s current true c) current c.
 Definition case_labels := case_labels_with current.
+(* the proposed repair of BestFitQuery (no trailing ';') applied on a scratch copy *)
+Definition case_labels_bestfix := case_labels_with' current true.
 (* variants describing the code with repairs reverted, or with proposed repairs applied on a scratch
    copy (VERIF_C10_VARIANT) *)
 Definition case_labels_prequote := case_labels_with prequote.
